@@ -26,6 +26,8 @@ def failure_key(c, o):
         dims.append("quantified>=11")
     dims.append("kind=%s" % c["kind"] if c["kind"] in ("uniqueValues", "nested", "atLeast", "atMost") or "Property" in c["kind"] else "kind=*")
     dims.append("path=%s" % c["path"])
+    if c.get("listing", "once") != "once":
+        dims.append("listing=%s" % c["listing"])
     dims.append("ctx=%s" % c["ctx"])
     return "does not compile [%s]: %s" % (" ".join(dims), what)
 
@@ -62,7 +64,8 @@ def run(tier):
         shapes = [s for s in shapes if s["depth"] <= 5 or (s["ctx"] == "plain" and s["depth"] <= 7)]
         heavy = [s for s in shapes if s["siblings"] * s["depth"] >= 11]
         light = [s for s in shapes if s["siblings"] * s["depth"] < 11]
-        shapes = heavy[:30] + light[:500]
+        listed = [s for s in light if s.get("listing", "once") != "once"]
+        shapes = heavy[:30] + listed + [s for s in light if s.get("listing", "once") == "once"][:500]
     for i, s in enumerate(shapes):
         s["id"] = "s%05d" % i
     # heavy shapes first so that shards finish together
@@ -82,7 +85,7 @@ def run(tier):
         "states": names.distinct + sum(r.distinct for r in rs), "transitions": names.generated + sum(r.generated for r in rs),
         "traces_validated_against_impl": len(shapes),
         "evaluations": len(shapes), "distinct_nontrivial": ok,
-        "rule": "profile shapes enumerated by TLC (ShapeCases.tla): complete slices kind(25) x path shape(10) x context(8), "
+        "rule": "profile shapes enumerated by TLC (ShapeCases.tla): complete slices kind(25) x path shape(15) x context(8), how a validation is listed (once / two / three levels / twice), "
                 "siblings/depth/context/quantifier, kind x number of validations, plus hash-sampled points of the full product "
                 "(%d shapes in the enumerated parts, %d replayed); each rendered as a well-formed declarative profile, "
                 "compiled with CompileProfile and run once; non-trivial = compiled and produced a report"
